@@ -5,6 +5,7 @@
 mod chan_mode;
 mod engine_mode;
 mod model_mode;
+mod multi_mode;
 mod raw_mode;
 mod retry_mode;
 mod store_mode;
@@ -20,6 +21,7 @@ fn main() {
     let res = std::panic::catch_unwind(|| match mode {
         "store" => store_mode::main(&args[2], &args[3], &args[4], args.get(5).map(|s| s.as_str()).unwrap_or("mem")),
         "engine" => engine_mode::main(&args[2], &args[3], &args[4], &args[5..]),
+        "multi" => multi_mode::main(&args[2], &args[3], &args[4], &args[5..]),
         "model" => model_mode::main(&args[2], &args[3], &args[4], &args[5..]),
         "chan" => chan_mode::main(&args[2], &args[3], &args[4], &args[5..]),
         "raw" => raw_mode::main(&args[2], &args[3], &args[4], &args[5..]),
